@@ -65,3 +65,43 @@ pub fn site_key(p: &PanicInfo) -> String {
 pub fn env_u64(name: &str, default: u64) -> u64 {
     std::env::var(name).ok().and_then(|s| s.parse().ok()).unwrap_or(default)
 }
+
+// ------------------------------------------------------------------------------------------------
+// Watchdog: code under test that never returns must not hang the check.  Workers call `tick`
+// before every library operation; if no tick arrives for `limit` seconds the process prints a
+// finding (property "*": it counts for whichever property is being checked) and exits with 3.
+// ------------------------------------------------------------------------------------------------
+use std::sync::atomic::{AtomicU64, Ordering};
+use std::sync::Mutex;
+static LAST_TICK: AtomicU64 = AtomicU64::new(0);
+static LAST_DESC: Mutex<String> = Mutex::new(String::new());
+static WATCHDOG: Once = Once::new();
+
+fn now_secs() -> u64 {
+    std::time::SystemTime::now().duration_since(std::time::UNIX_EPOCH).map(|d| d.as_secs()).unwrap_or(0)
+}
+
+pub fn tick(desc: &str) {
+    LAST_TICK.store(now_secs(), Ordering::Relaxed);
+    if let Ok(mut d) = LAST_DESC.try_lock() {
+        d.clear();
+        d.push_str(desc);
+    }
+}
+
+pub fn start_watchdog(limit: u64) {
+    WATCHDOG.call_once(|| {
+        LAST_TICK.store(now_secs(), Ordering::Relaxed);
+        std::thread::spawn(move || loop {
+            std::thread::sleep(std::time::Duration::from_secs(1));
+            let idle = now_secs().saturating_sub(LAST_TICK.load(Ordering::Relaxed));
+            if idle > limit {
+                let d = LAST_DESC.lock().map(|d| d.clone()).unwrap_or_default();
+                println!("{}", serde_json::json!({"kind":"finding","prop":"*","what":"an operation of the library does not terminate (watchdog)",
+                    "site":"","universe":"","key":[],"path":[],"step":0,"naming":"","mode":"","detail":{"last_operation_started": d, "idle_seconds": idle}}));
+                println!("{}", serde_json::json!({"kind":"summary","hang":true}));
+                std::process::exit(3);
+            }
+        });
+    });
+}
